@@ -4,6 +4,7 @@ package verifsim
 
 import (
 	"context"
+	"encoding/json"
 	"fmt"
 	"runtime"
 	"sort"
@@ -597,6 +598,7 @@ func newWorldA(p *Plan, out *Outcome, preStart func(w *worldA)) *worldA {
 	if preStart != nil {
 		preStart(w)
 	}
+	w.cfg.CfgHash, w.cfg.RulesHash = w.contentHashes()
 	if err := w.coll.Start(); err != nil {
 		out.Harness = "collector start: " + err.Error()
 		return w
@@ -873,6 +875,34 @@ func (w *worldA) doSpan(op Op) {
 	sr.accepted = true
 }
 
+// contentHashes: what a file-backed config reports with a reload - a digest of
+// the main settings and one of the sampling rules; equal content, equal digest
+// (reverting a change brings the earlier digest back).
+func (w *worldA) contentHashes() (string, string) {
+	c := w.cfg
+	c.Mux.RLock()
+	defer c.Mux.RUnlock()
+	attrs, _ := json.Marshal(c.AdditionalAttributes)
+	main := fmt.Sprintf("%v/%v/%v/%v/%v/%s/%d", c.DryRun, c.AddHostMetadataToTrace, c.AddRuleReasonToTrace, c.AddSpanCountToRoot, c.AddCountsToRoot, attrs, c.SampleCache.KeptSize)
+	rules, _ := json.Marshal(c.GetSamplerTypeVal)
+	rules2, _ := json.Marshal(c.Samplers)
+	return fmt.Sprintf("%016x", H(1, "cfg", main)), fmt.Sprintf("%016x", H(1, "rules", c.GetSamplerTypeName, string(rules), string(rules2)))
+}
+
+// reloadCfg tells the listeners that the configuration changed, the way the
+// file-backed config does: with the digests of the content now in force.
+func (w *worldA) reloadCfg() {
+	c := w.cfg
+	ch, rh := w.contentHashes()
+	c.Mux.Lock()
+	c.CfgHash, c.RulesHash = ch, rh
+	cbs := append([]config.ConfigReloadCallback(nil), c.Callbacks...)
+	c.Mux.Unlock()
+	for _, cb := range cbs {
+		cb(ch, rh)
+	}
+}
+
 func (w *worldA) doReload(op Op) {
 	c := w.cfg
 	for i := 0; i < w.nWorkers; i++ {
@@ -897,7 +927,7 @@ func (w *worldA) doReload(op Op) {
 			// the collector's reload callback stalls half way; a worker decides a
 			// trace; the callback goes on
 			release, parked := w.stress.arm()
-			c.Reload()
+			w.reloadCfg()
 			w.drv.Settle()
 			select {
 			case <-parked:
@@ -909,7 +939,7 @@ func (w *worldA) doReload(op Op) {
 				close(release)
 			}
 		} else {
-			c.Reload()
+			w.reloadCfg()
 		}
 		w.out.Probe("reload_" + op.S)
 		return
@@ -936,7 +966,7 @@ func (w *worldA) doReload(op Op) {
 	}
 	c.Mux.Unlock()
 	w.pushEpoch()
-	c.Reload()
+	w.reloadCfg()
 	w.lruResize(int(c.GetSampleCacheConfig().GetKeptSizePerWorker()))
 	w.out.Probe("reload_" + op.S)
 }
@@ -995,6 +1025,8 @@ func (w *worldA) schedule() time.Duration {
 				w.peersRace(op)
 			case "create_race":
 				w.createRace(op)
+			case "reload_busy":
+				w.reloadWhileBusy(op)
 			case "peers_fail":
 				w.gpeers.mu.Lock()
 				w.gpeers.failing = op.N == 1
@@ -1145,6 +1177,85 @@ func (w *worldA) createRace(op Op) {
 	awaitGoroutine(gb, nil)
 	close(release)
 	w.drv.Settle()
+}
+
+// freshTraceOn: the first trace index from base on whose trace belongs to worker wk.
+func (w *worldA) freshTraceOn(base, wk int) int {
+	for k := 0; k < 400; k++ {
+		if w.byIdx[base+k] == nil && w.coll.VerifWorkerFor(traceIDFor(w.p.Seed, base+k)) == wk {
+			return base + k
+		}
+	}
+	return -1
+}
+
+// reloadWhileBusy: one worker is busy (held at the start of a decision) while
+// the main configuration changes twice - an option is switched and switched
+// back, the rules stay what they are - and another worker decides a trace of
+// the same environment between the two changes. Afterwards the busy worker goes
+// on and decides one more trace. Whatever signals were pending or dropped on
+// the way, workers using the same definition must end up on one rate-tracking
+// instance.
+func (w *worldA) reloadWhileBusy(op Op) {
+	if w.nWorkers < 2 {
+		return
+	}
+	for i := 0; i < w.nWorkers; i++ {
+		if w.tr.Armed(fmt.Sprintf("collect_worker/%d", i)) {
+			return
+		}
+	}
+	busy := int(op.N) % w.nWorkers
+	other := (busy + 1 + int(op.M)%(w.nWorkers-1)) % w.nWorkers
+	a, b := w.freshTraceOn(int(op.I), busy), w.freshTraceOn(int(op.I)+400, other)
+	c := w.freshTraceOn(int(op.I)+800, busy)
+	if a < 0 || b < 0 || c < 0 {
+		return
+	}
+	span := func(i int) { w.doSpan(Op{ID: op.ID, K: "span", I: int64(i), N: skRoot | op.J<<8, S: op.S}) }
+	tick := func(wk int) {
+		if tk := w.clk.Find(fmt.Sprintf("a/worker/%d", wk)); tk != nil {
+			select {
+			case tk.ch <- time.Now():
+			default:
+			}
+		}
+	}
+	g := w.tr.WorkerGoid(int64(busy))
+	if g == 0 {
+		return
+	}
+	span(a)
+	span(b)
+	w.drv.Settle()
+	key := fmt.Sprintf("makeDecision/%d", busy)
+	w.tr.Park(key)
+	time.Sleep(w.tracesCfgTimeout() + time.Millisecond)
+	tick(busy)
+	awaitGoroutine(g, nil)
+	if !w.tr.Parked(key) {
+		w.tr.Release(key)
+		w.drv.Settle()
+		return
+	}
+	hm := int64(1)
+	if w.cfg.GetAddHostMetadataToTrace() {
+		hm = 0
+	}
+	w.doReload(Op{ID: op.ID, K: "reload", S: "host_meta", N: hm})
+	w.drv.Settle()
+	tick(other)
+	w.drv.Settle()
+	w.doReload(Op{ID: op.ID, K: "reload", S: "host_meta", N: 1 - hm})
+	w.drv.Settle()
+	w.tr.Release(key)
+	w.drv.Settle()
+	span(c)
+	w.drv.Settle()
+	time.Sleep(w.tracesCfgTimeout() + time.Millisecond)
+	tick(busy)
+	w.drv.Settle()
+	w.out.Probe("two_reloads_while_a_worker_was_busy")
 }
 
 // peersRace: a lazy sampler creation on a worker looks the peer list up, is
